@@ -66,10 +66,13 @@ def check(assertions, timeout_s=60, fallbacks=True, tactic=None, eval_terms=None
                     seconds=time.time() - t0, tried=tried)
     if fallbacks:
         text = _smt2(assertions)
-        for name, cmd in (('cvc5-1.0.3', ['/usr/bin/cvc5', '--strings-exp', '--tlimit=%d' % int(timeout_s * 1000)]),
-                          ('z3-4.8.12', ['/usr/bin/z3', '-T:%d' % int(timeout_s)])):
+        # z3 gave up early (incompleteness): the other solvers get the full budget.  z3 ran out of time: a hard query - the others get a short budget only,
+        # so that one obligation never costs three full time limits
+        fb = timeout_s if (time.time() - t0) < 0.8 * timeout_s else min(timeout_s, float(os.environ.get('PYVC_FALLBACK_S', '40')))
+        for name, cmd in (('cvc5-1.0.3', ['/usr/bin/cvc5', '--strings-exp', '--tlimit=%d' % int(fb * 1000)]),
+                          ('z3-4.8.12', ['/usr/bin/z3', '-T:%d' % int(fb)])):
             t1 = time.time()
-            v, _ = _run_cli(cmd, text, timeout_s)
+            v, _ = _run_cli(cmd, text, fb)
             tried.append((name, v, round(time.time() - t1, 3)))
             if v == 'unsat':
                 return dict(verdict='unsat', model=None, backend=name, seconds=time.time() - t0, tried=tried)
